@@ -9,7 +9,7 @@ from pulser.pulse import Pulse
 from pulser.channels.dmm import DMM
 
 VERIF = os.path.dirname(os.path.dirname(os.path.abspath(__file__)))
-PROP_GROUP = {"C03": ["C03"], "C10": ["C10"], "C02": ["C02"], "C01": ["C01"], "C09": ["C09"], "C07": ["C07"], "C13": ["C13"], "C15": ["C15"]}
+PROP_GROUP = {"C16": ["C16"], "C03": ["C03"], "C10": ["C10"], "C02": ["C02"], "C01": ["C01"], "C09": ["C09"], "C07": ["C07"], "C13": ["C13"], "C15": ["C15"]}
 
 
 def load_known(prop):
@@ -41,7 +41,15 @@ def snapshot(seq):
                 slm=(repr(seq._slm_mask_targets), seq._slm_mask_dmm), variables=sorted(seq._variables))
 
 
-def _only_appended_delays(before, after, channels):
+def _eom_same_or_closed(b, a, allow_close):
+    if a == b:
+        return True
+    if not allow_close or len(a) != len(b) or a[:-1] != b[:-1]:
+        return False
+    return b[-1][4] is None and a[-1][:4] == b[-1][:4]      # only the last block's end changed from open to closed
+
+
+def _only_appended_delays(before, after, channels, allow_close=False):
     """the two snapshots differ only by delay slots appended to the given channels."""
     for k in before:
         if k != "schedule" and before[k] != after[k]:
@@ -52,10 +60,10 @@ def _only_appended_delays(before, after, channels):
             return False
         if a == b:
             continue
-        if name not in channels or a["eom"] != b["eom"] or a["slots"][: len(b["slots"])] != b["slots"]:
+        if name not in channels or not _eom_same_or_closed(b["eom"], a["eom"], allow_close) or a["slots"][: len(b["slots"])] != b["slots"]:
             return False
         extra = a["slots"][len(b["slots"]):]
-        if not extra or any(not (x[0] == "delay" or (isinstance(x[0], (tuple, list)) and x[0][0] == "pulse" and "ConstantWaveform" in str(x[0][3]))) for x in extra):
+        if (not extra and a["eom"] == b["eom"]) or any(not (x[0] == "delay" or (isinstance(x[0], (tuple, list)) and x[0][0] == "pulse" and "ConstantWaveform" in str(x[0][3]))) for x in extra):
             return False
     return set(after["schedule"]) == set(before["schedule"])
 
@@ -80,7 +88,7 @@ def classify_known(prop, msg, op, cfg, before, after, known):
             if b and a and len(a["slots"]) == len(b["slots"]) + 1 and _only_appended_delays(before, after, [name]) and (kid != "KF-C09-2" or op[3]):
                 return kid
         elif kid == "KF-C09-4":
-            if op[0] in ("enable_eom", "disable_eom", "modify_eom") and _only_appended_delays(before, after, [op[1]]):
+            if op[0] in ("enable_eom", "disable_eom", "modify_eom") and _only_appended_delays(before, after, [op[1]], allow_close=op[0] != "enable_eom"):
                 return kid
         elif kid == "KF-C09-3":
             if _only_appended_delays(before, after, list(op[1])):
@@ -380,6 +388,13 @@ def check_C07(seq, before, after, op, ok, ctx, est):
     if ok and op[0] == "phase_shift":
         for q in op[2]:
             sums[(op[3], str(q))] = sums.get((op[3], str(q)), 0.0) + op[1]
+            # the shift is timed at the end of the last pulse that targeted q in this basis (independent recomputation)
+            used = [s.tf for cs in seq._schedule.values() if cs.channel_obj.basis == op[3]
+                    for s in cs.slots if isinstance(s.type, Pulse) and not cs.is_detuned_delay(s.type) and q in s.targets]
+            want = max(used) if used else 0
+            times = after["refs"].get(op[3], {}).get(str(q), ([0], [0.0], 0))[0]
+            if (op[1] % TWO_PI) != 0 and times[-1] < want:
+                out.append(f"phase shift on {q}/{op[3]} is timed at {times[-1]}, before the end ({want}) of the last pulse that used it")
     if ok and op[0] == "add":
         name = op[2]
         cs = seq._schedule[name]
